@@ -19,7 +19,7 @@ func metaIDStr(p protocol.Packet) string {
 
 func runC19(r *Run) {
 	g := r.rng
-	r.st.Rule = "histories of constructor calls (NewRequest, MustNewRequest, NewResponse, MustNewResponse, NewPush, MustNewPush) with random option lists (WithRequestId, WithStatusCode, WithVerify, in any order and multiplicity) over 1-3 contexts, every resulting packet's type/cmd/id/status/verify compared with the model; G x M goroutines on one context must produce exactly the multiset {1..GM}, each goroutine seeing increasing ids, a second context unaffected (direct oracle); the same with all goroutines spreading one shared option slice with spare capacity into the constructors (ids and status codes must stay their own). distinct = distinct request lines"
+	r.st.Rule = "histories of constructor calls (NewRequest, MustNewRequest, NewResponse, MustNewResponse, NewPush, MustNewPush) with random option lists (WithRequestId, WithStatusCode, WithVerify, in any order and multiplicity) over 1-3 contexts, every resulting packet's type/cmd/id/status/verify compared with the model; G x M goroutines on one context must produce exactly the multiset {1..GM}, each goroutine seeing increasing ids, a second context unaffected (direct oracle); with failing builds (unmarshalable body) mixed in, sequentially against the model and concurrently (ids of the successful requests pairwise distinct, increasing per goroutine); 2^31+2 successive ids of one context (thorough: 2^32-1); the same with all goroutines spreading one shared option slice with spare capacity into the constructors (ids and status codes must stay their own). distinct = distinct request lines"
 	nh := 400
 	if r.thorough() {
 		nh = 8000
@@ -34,6 +34,7 @@ func runC19(r *Run) {
 		n := 1 + g.Intn(30)
 		var calls, outs []string
 		perCtxReq := make([]uint32, nctx)
+		gap := make([]bool, nctx)
 		for j := 0; j < n; j++ {
 			c := g.Intn(nctx)
 			cmd := uint32(g.Intn(300))
@@ -67,7 +68,15 @@ func runC19(r *Run) {
 			code := uint8(g.Intn(256))
 			body := []byte("x")
 			isReq := false
-			switch g.Intn(6) {
+			failed := false
+			switch g.Intn(7) {
+			case 6: // a request whose body cannot be marshalled: the call fails (after the id was drawn)
+				_, err := protocol.NewRequest(ctxs[c], cmd, 42, opts...)
+				ct, failed = "f", true
+				if err == nil {
+					r.violate(Violation{What: "NewRequest accepted a body that the codec cannot marshal", Case: strings.Join(calls, " ")})
+				}
+				gap[c] = true
 			case 0:
 				p, _ = protocol.NewRequest(ctxs[c], cmd, body, opts...)
 				ct, isReq = "q", true
@@ -88,13 +97,18 @@ func runC19(r *Run) {
 				ct = "U"
 			}
 			calls = append(calls, fmt.Sprintf("%d~%s~%d~%s", c, ct, cmd, ostr))
+			if failed {
+				outs = append(outs, "ERR")
+				continue
+			}
 			outs = append(outs, metaIDStr(p))
-			// direct oracle
+			// direct oracle: the next id in issue order (after a failed build any larger id would do)
 			if isReq {
-				perCtxReq[c]++
-				if p.Metadata.RequestId != perCtxReq[c] {
-					r.violate(Violation{What: fmt.Sprintf("request constructor did not stamp the fresh id (got %d, want %d): caller options must not override it", p.Metadata.RequestId, perCtxReq[c]), Case: strings.Join(calls, " ")})
+				id := p.Metadata.RequestId
+				if (!gap[c] && id != perCtxReq[c]+1) || id <= perCtxReq[c] {
+					r.violate(Violation{What: fmt.Sprintf("request constructor did not stamp a fresh id in issue order (got %d after %d): caller options must not override it", id, perCtxReq[c]), Case: strings.Join(calls, " ")})
 				}
+				perCtxReq[c], gap[c] = id, false
 			} else if hasRid && p.Metadata.RequestId != callerRid || (!hasRid && p.Metadata.RequestId != 0) {
 				r.violate(Violation{What: "response/push constructor did not leave the id to the caller", Case: strings.Join(calls, " ")})
 			}
@@ -103,8 +117,9 @@ func runC19(r *Run) {
 		r.count(fmt.Sprintf("hist.ctx%d", nctx))
 	}
 	// concurrency
-	for _, gm := range [][2]int{{2, 5000}, {8, 4000}, {16, 2000}, {64, 300}} {
+	for gi, gm := range [][2]int{{2, 5000}, {8, 4000}, {16, 2000}, {64, 300}, {8, 4000}, {16, 2000}} {
 		G, M := gm[0], gm[1]
+		withFailures := gi >= 4 // failing builds in between: the ids of the successful ones stay distinct and increasing
 		if r.thorough() {
 			M *= 5
 		}
@@ -129,6 +144,9 @@ func runC19(r *Run) {
 						p, _ = protocol.NewRequest(ctx, 9, nil, protocol.WithStatusCode(3))
 					}
 					ids[w] = append(ids[w], p.Metadata.RequestId)
+					if withFailures && i%2 == w%2 {
+						protocol.NewRequest(ctx, 9, 42) // cannot be marshalled: fails after its id was drawn
+					}
 				}
 			}(w)
 		}
@@ -146,8 +164,12 @@ func runC19(r *Run) {
 		}
 		sort.Slice(all, func(i, j int) bool { return all[i] < all[j] })
 		for i, id := range all {
-			if id != uint32(i+1) {
+			if !withFailures && id != uint32(i+1) {
 				bad = fmt.Sprintf("ids handed out to %d goroutines x %d calls are not exactly {1..%d} (position %d holds %d)", G, M, G*M, i, id)
+				break
+			}
+			if withFailures && (id == 0 || (i > 0 && id == all[i-1])) {
+				bad = fmt.Sprintf("with failing builds in between, %d goroutines x %d calls: id %d was handed out twice (or is 0)", G, M, id)
 				break
 			}
 		}
@@ -157,7 +179,7 @@ func runC19(r *Run) {
 		if bad != "" {
 			r.violate(Violation{What: bad, Case: fmt.Sprintf("%d goroutines x %d calls", G, M)})
 		}
-		r.st.Dist[fmt.Sprintf("concurrent.%dx%d", G, M)] = G * M
+		r.st.Dist[fmt.Sprintf("concurrent.%dx%d.failures%v", G, M, withFailures)] = G * M
 	}
 	// the goroutines spread one shared option slice (with spare capacity) into their calls: the constructors may read it,
 	// never write to it - a stamped id or status code written into the caller's array would reach another goroutine's packet
@@ -220,6 +242,38 @@ func runC19(r *Run) {
 		}
 		r.st.Evaluations++
 		r.count("concurrent.shared-option-slice")
+	}
+	// a long-lived context: the ids keep counting up through the 2^31 boundary (quick: 2^31+2 draws; thorough: all 2^32-1
+	// ids a context can hand out before the 32-bit counter wraps, the bound of the model's draws_distinct theorem)
+	{
+		ctx := protocol.NewContext(context.Background(), protocol.ClientSide)
+		n := uint64(1)<<31 + 2
+		if r.thorough() {
+			n = uint64(1)<<32 - 4
+		}
+		prev, bad := uint32(0), ""
+		for i := uint64(1); i <= n; i++ {
+			id := ctx.NextReqId()
+			if id != prev+1 {
+				bad = fmt.Sprintf("draw %d on one context returned %d after %d", i, id, prev)
+				break
+			}
+			prev = id
+		}
+		if bad == "" {
+			for k := uint64(1); k <= 3; k++ {
+				p, _ := protocol.NewRequest(ctx, 5, nil)
+				if uint64(p.Metadata.RequestId) != n+k {
+					bad = fmt.Sprintf("request %d after %d draws carries id %d, want %d", k, n, p.Metadata.RequestId, n+k)
+					break
+				}
+			}
+		}
+		if bad != "" {
+			r.violate(Violation{What: "request ids of a long-lived context do not keep increasing: " + bad, Case: fmt.Sprintf("%d successive ids of one context", n+3)})
+		}
+		r.st.Evaluations++
+		r.st.Dist["long-lived-context.draws"] = int(n + 3)
 	}
 	// a second handshake on the same context (same or other registered version) does not restart the id sequence
 	for _, v2 := range []uint8{1, 2, 7} {
